@@ -88,28 +88,28 @@ Fail(seg) == IF seg.opt THEN NoValue ELSE Error
 StepSeg(seg, cur) ==
   CASE seg.t = "identity" -> cur
     [] seg.t = "field" ->
-         IF cur.k = "map"
-         THEN LET x == LookupEntries(cur.v, seg.name) IN IF x = NoValue THEN Fail(seg) ELSE x
+         IF K(cur) = "map"
+         THEN LET x == LookupEntries(Pv(cur), seg.name) IN IF x = NoValue THEN Fail(seg) ELSE x
          ELSE Fail(seg)
     [] seg.t = "index" ->
-         IF cur.k \in {"list", "bytes"}
-         THEN LET n == Len(cur.v)
+         IF K(cur) \in {"list", "bytes"}
+         THEN LET n == Len(Pv(cur))
                   p == NormIdx(seg.i, n)
               IN IF p < 0 \/ p >= n THEN Fail(seg)
-                 ELSE IF cur.k = "list" THEN cur.v[p + 1] ELSE Int_(cur.v[p + 1])
+                 ELSE IF K(cur) = "list" THEN Pv(cur)[p + 1] ELSE Int_(Pv(cur)[p + 1])
          ELSE Fail(seg)
     [] seg.t = "slice" ->
-         IF cur.k \in {"list", "bytes", "string"}
-         THEN [cur EXCEPT !.v = PySliceSeq(cur.v, seg)]
+         IF K(cur) \in {"list", "bytes", "string"}
+         THEN [cur EXCEPT ![2] = PySliceSeq(Pv(cur), seg)]
          ELSE IF seg.opt THEN DontCare ELSE Error
     [] seg.t = "iter" ->
-         IF cur.k = "list" THEN cur
-         ELSE IF cur.k = "map" THEN List(MapValues(cur))
+         IF K(cur) = "list" THEN cur
+         ELSE IF K(cur) = "map" THEN List(MapValues(cur))
          ELSE IF seg.opt THEN DontCare ELSE Error
 
 RECURSIVE ResolveFrom(_, _)
 ResolveFrom(sel, cur) ==
-  IF sel = <<>> \/ cur.k \in {"error", "dontcare"} THEN cur
+  IF sel = <<>> \/ K(cur) \in {"error", "dontcare"} THEN cur
   ELSE ResolveFrom(Tail(sel), StepSeg(Head(sel), cur))
 
 Resolve(sel, val) == ResolveFrom(sel, val)
@@ -118,7 +118,7 @@ Resolve(sel, val) == ResolveFrom(sel, val)
 (* Code-shaped resolution machine *)
 
 InitR(sel, val) == [sel |-> sel, val |-> val, pos |-> 1, cur |-> val, hist |-> <<>>,
-                    status |-> IF val.k \in {"error", "dontcare"} THEN "done" ELSE "run"]
+                    status |-> IF K(val) \in {"error", "dontcare"} THEN "done" ELSE "run"]
 
 \* One iteration of the loop in resolve(); returns <<new cur, stop now?>>.
 CodeStep(seg, cur) ==
@@ -129,35 +129,35 @@ CodeStep(seg, cur) ==
   IN
   CASE seg.t = "identity" -> <<cur, FALSE>>
     [] seg.t = "iter" ->
-         IF cur.k \in {"novalue", "null"} THEN (IF seg.opt THEN <<DontCare, TRUE>> ELSE <<Error, TRUE>>)
-         ELSE IF cur.k = "list" THEN <<cur, FALSE>>
-         ELSE IF cur.k = "map" THEN <<List(MapValues(cur)), "IteratorMapEarlyReturn" \in Deviations>>
+         IF K(cur) \in {"novalue", "null"} THEN (IF seg.opt THEN <<DontCare, TRUE>> ELSE <<Error, TRUE>>)
+         ELSE IF K(cur) = "list" THEN <<cur, FALSE>>
+         ELSE IF K(cur) = "map" THEN <<List(MapValues(cur)), "IteratorMapEarlyReturn" \in Deviations>>
          ELSE IF seg.opt THEN <<DontCare, TRUE>> ELSE <<Error, TRUE>>
     [] isField ->
-         IF cur.k = "novalue" THEN fail
-         ELSE IF cur.k = "map"
-              THEN LET x == LookupEntries(cur.v, seg.name) IN
+         IF K(cur) = "novalue" THEN fail
+         ELSE IF K(cur) = "map"
+              THEN LET x == LookupEntries(Pv(cur), seg.name) IN
                    IF x = NoValue THEN (IF seg.opt THEN <<NoValue, FALSE>> ELSE <<Error, TRUE>>)
                    ELSE <<x, FALSE>>
               ELSE fail
     [] seg.t = "slice" ->
-         IF cur.k \in {"list", "bytes", "string"} THEN <<[cur EXCEPT !.v = SliceSeq(cur.v, seg)], FALSE>>
+         IF K(cur) \in {"list", "bytes", "string"} THEN <<[cur EXCEPT ![2] = SliceSeq(Pv(cur), seg)], FALSE>>
          ELSE IF seg.opt THEN <<DontCare, TRUE>> ELSE <<Error, TRUE>>
     [] asIndex ->
          LET idx == IF seg.t = "index" THEN seg.i ELSE 0 IN
-         IF cur.k = "novalue" THEN fail
-         ELSE IF cur.k \in {"list", "bytes"}
-              THEN LET n == Len(cur.v)
+         IF K(cur) = "novalue" THEN fail
+         ELSE IF K(cur) \in {"list", "bytes"}
+              THEN LET n == Len(Pv(cur))
                        p == IF idx < 0 THEN n + idx ELSE idx
                    IN IF p < 0 \/ p >= n THEN fail
-                      ELSE <<IF cur.k = "list" THEN cur.v[p + 1] ELSE Int_(cur.v[p + 1]), FALSE>>
+                      ELSE <<IF K(cur) = "list" THEN Pv(cur)[p + 1] ELSE Int_(Pv(cur)[p + 1]), FALSE>>
               ELSE IF "OptIndexWrongKindErrs" \in Deviations THEN <<Error, TRUE>> ELSE fail
 
 StepR(r) ==
   IF r.pos > Len(r.sel) THEN [r EXCEPT !.status = "done"]
   ELSE LET res == CodeStep(r.sel[r.pos], r.cur) IN
        [r EXCEPT !.cur = res[1], !.hist = Append(r.hist, res[1]), !.pos = r.pos + 1,
-                 !.status = IF res[2] \/ res[1].k \in {"error", "dontcare"} THEN "done" ELSE "run"]
+                 !.status = IF res[2] \/ K(res[1]) \in {"error", "dontcare"} THEN "done" ELSE "run"]
 
 RECURSIVE RunR(_)
 RunR(r) == IF r.status = "done" THEN r ELSE RunR(StepR(r))
